@@ -574,14 +574,20 @@ namespace cds { namespace intrusive {
         {
             assert( iter != end());
 
-            marked_data_ptr val( iter.data());
-            if ( iter.m_pNode->data.compare_exchange_strong( val, marked_data_ptr(), memory_model::memory_order_acquire, atomics::memory_order_relaxed )) {
-                --m_ItemCounter;
-                retire_data( val.ptr());
-                m_Stat.onEraseSuccess();
-                return true;
+            back_off bkoff;
+            for ( ;; ) {
+                marked_data_ptr val( iter.data());
+                if ( iter.m_pNode->data.compare_exchange_strong( val, marked_data_ptr(), memory_model::memory_order_acquire, atomics::memory_order_relaxed )) {
+                    --m_ItemCounter;
+                    retire_data( val.ptr());
+                    m_Stat.onEraseSuccess();
+                    return true;
+                }
+                if ( val.ptr() != iter.data())
+                    return false;   // removed or replaced
+                // same item, temporarily marked by link_data() of a concurrent insertion next to it
+                bkoff();
             }
-            return false;
         }
 
         /// Extracts the item from the list with specified \p key
